@@ -148,9 +148,22 @@ def phase_mc(ck):
 
 
 # ------------------------------------------------------------------------------------------------ S->C (b)
+def lead_margin(js):
+    """For a late-in-select lead: the clock value at which the last stale head was received (the later, the longer the
+    real wait outlives its deadline, the less a slow machine can blur the observation)."""
+    m = 0
+    for st in json.loads(js):
+        if st["a"] == "WRecv" and st["o"]["wpc"][st["w"] - 1] == "waiting":
+            m = max(m, st["o"]["now"])
+    return m
+
+
 def scripts_from(res, tag, src, nc, nw, strategy, limit=None, per_class=None):
     out, seen, cnt = [], set(), {}
-    for t in res.tuples(tag):
+    tuples = res.tuples(tag)
+    if tag == "CEX":
+        tuples.sort(key=lambda t: -lead_margin(t[-1]) if t[1] == "late-in-select" and isinstance(t[-1], str) else 0)
+    for t in tuples:
         js = t[-1]
         if not isinstance(js, str) or js in seen:
             continue
@@ -337,8 +350,10 @@ def trace_key(rj):
             # does not explain is a scheduling effect, not the code
             ts = [x["t"] for x in seg[1:rj["accepted"] + 1] if "t" in x]
 
+            dense = not str(seg[0].get("profile", "")).startswith("gate:")   # under the gates silence is the replayer waiting
+
             def gaps(a, b):   # time in [a, b] during which nothing at all was recorded (>40 ms of silence)
-                return sum(t2 - t1 for t1, t2 in zip(ts, ts[1:]) if t1 >= a and t2 <= b and t2 - t1 > 40)
+                return sum(t2 - t1 for t1, t2 in zip(ts, ts[1:]) if t1 >= a and t2 <= b and t2 - t1 > 40) if dense else 0
             stalled = gaps(c["sel"], t)
             if t - c["sel"] - stalled <= c["tmo"] + SLACK_MS:
                 k = "C13:wait-outlives-deadline"       # explained by the stall alone
@@ -394,6 +409,19 @@ def validate_body(ck, body, tag, deferred=None):
     return segs, nrej
 
 
+def validate_uncounted(ck, path, name):
+    """Trace validation whose states / events do not count as evidence (canaries). Other phases run concurrently, so the
+    counters are corrected by this job's own contribution instead of being saved and restored."""
+    n = sum(1 for _ in open(path)) - 1
+    res, rej = ck.validate_segments("Pool_Trace", "trace/Pool_Trace.cfg", path, name=name, heap_gb=2)
+    ck.states -= res.distinct
+    ck.transitions -= res.generated
+    ck.evaluations -= n
+    if not rej:
+        ck.traces_ok -= 1
+    return rej
+
+
 def phase_gate_traces(ck, gate_res, byid):
     """The executions forced through the gates are real executions as well: they must be behaviours of Pool too."""
     body, n = [], 0
@@ -442,9 +470,7 @@ def phase_trace(ck):
         if "Hang" not in ks and "sub.reg" in ks and "wait.recv" in ks and "smh.send" in ks and len(s) < 1500:
             p = os.path.join(ck.work, "canary_base.ndjson")
             vlib.write_ndjson(p, s + [{"k": "End"}])
-            st = (ck.states, ck.transitions, ck.traces_ok, ck.evaluations)
-            _, rej = ck.validate_segments("Pool_Trace", "trace/Pool_Trace.cfg", p, name="canary_base")
-            ck.states, ck.transitions, ck.traces_ok, ck.evaluations = st
+            rej = validate_uncounted(ck, p, "canary_base")
             if not rej:
                 clean = s
                 break
@@ -463,9 +489,7 @@ def phase_trace(ck):
                              ("C->S: corrupted logged head of wait.recv", c3, i_recv + 1)):
         p = os.path.join(ck.work, "canary_%s.ndjson" % re.sub(r"\W+", "_", nm)[:40])
         vlib.write_ndjson(p, c + [{"k": "End"}])
-        st = (ck.states, ck.transitions, ck.traces_ok, ck.evaluations)
-        _, rej = ck.validate_segments("Pool_Trace", "trace/Pool_Trace.cfg", p, name="canary")
-        ck.states, ck.transitions, ck.traces_ok, ck.evaluations = st
+        rej = validate_uncounted(ck, p, "canary")
         # dropping an event is noticed at the first later event that depends on it, never before the gap
         ck.canary(nm, len(rej) == 1 and rej[0]["line"] >= first_bad)
     return len(segs) - nrej
